@@ -63,6 +63,7 @@ func (r *EngineRunner) itObs(what string) string {
 		return "v=0"
 	}
 	k := it.Key()
+	fillSpare(k) // the caller may append to the key it was handed: that is its own memory
 	v, err := it.Value()
 	if ref != nil {
 		if ref.cur >= len(ref.keys) {
@@ -116,4 +117,15 @@ func (r *EngineRunner) execIter(f []string) string {
 		return "ok"
 	}
 	return "err unknown-op"
+}
+
+// fillSpare writes into the spare capacity of a slice the engine handed out (what append would do): at most 64 bytes.
+func fillSpare(b []byte) {
+	sp := b[len(b):cap(b)]
+	if len(sp) > 64 {
+		sp = sp[:64]
+	}
+	for i := range sp {
+		sp[i] = 0xA5
+	}
 }
